@@ -2,6 +2,7 @@ package main
 
 import (
 	"bufio"
+	"runtime"
 	"encoding/hex"
 	"fmt"
 	"math"
@@ -22,6 +23,7 @@ func runSearch(path string) {
 	sc.Buffer(make([]byte, 1<<20), 1<<26)
 	var c *syz.Collection
 	var dim, quant, metric int
+	nsearch := 0
 	u := func(s string) uint64 { v, _ := strconv.ParseUint(s, 10, 64); return v }
 	mh := func(s string) []byte {
 		if s == "-" {
@@ -99,6 +101,10 @@ func runSearch(path string) {
 				}
 				fmt.Fprintln(out, "ok")
 			case "search":
+				// the query slice of every search is a fresh allocation; collect now and then so that addresses get reused
+				if nsearch++; nsearch%5 == 0 {
+					runtime.GC()
+				}
 				args := syz.SearchArgs{K: int(u(f[1])), Radius: math.Float64frombits(u(f[2])), Offset: int(u(f[7])), Limit: int(u(f[8]))}
 				if f[3] == "1" {
 					args.Precision = "exact"
